@@ -208,6 +208,7 @@ def run(mod, tier, seed, replay=None):
             "known_findings_reobserved": listed_seen,
             "advisory_events_of_other_properties_monitors": foreign,
             "unlisted_violations": len(unlisted),
+            "unlisted_violation_keys": sorted(set(str(v.get("key")) for _, v in unlisted))[:3000],
             "verdict": "violated" if unlisted else ("inconclusive" if reasons else "held"),
             "inconclusive_reasons": reasons,
             "repo": _env.REPO,
